@@ -285,7 +285,7 @@ def run_impl(c):
     obs["applied"] = applied
     tree = dump_tree(st, it)
     obs["v"] = verdict(lambda: validate_structure(st))
-    obs["reader"] = verdict(lambda: GeffReader(st, validate=True))
+    obs["reader"] = verdict(lambda: GeffReader(st))  # validation is the documented default of the reader
     if c.get("cli"):
         obs["cli"] = cli_exit(st)
     obs["tree"] = tree
